@@ -19,8 +19,11 @@
                                          6 sites, for all programs passing the boolean
                                          checker WfStatic.wf_static, ALL plans
      (3) C06_wf_scoped_never_panics_scoping
-                                         5 sites, for all programs passing
-                                         WfScoped.wf_scoped for the plan that is run
+                                         5 sites, for all programs passing the boolean
+                                         checker WfScoped.wf_scoped for the plan that is run
+                                         ("no function runs before everything in scope at its
+                                         definition exists"); the shipped resolver does NOT
+                                         enforce this: C06_refuted_without_wf_scoped
      (4) C06_accepted_never_panics_partial   = (1)+(2)+(3): no Panicked ending at all
    and the tie "every program the real resolver accepts passes wf_static; the plan the real
    analysis builds passes wf_scoped unless the program has the early-call shape of known
@@ -33,8 +36,8 @@
    for EFuel / Unsupported endings this is true but says nothing about what the
    implementation does after that point — such runs are counted and never compared. *)
 From Coq Require Import ZArith List Bool String.
-Require Import NS.theories.F64 NS.theories.Lang NS.theories.WfStatic NS.theories.GenPanicSites.
-Require Import NS.proofs.LangNoPanic NS.proofs.PanicSitesProofs.
+Require Import NS.theories.F64 NS.theories.Lang NS.theories.WfStatic NS.theories.WfScoped NS.theories.GenPanicSites.
+Require Import NS.proofs.LangNoPanic NS.proofs.LangScoped NS.proofs.PanicSitesProofs.
 Import ListNotations.
 Open Scope Z_scope.
 
@@ -174,3 +177,66 @@ Example C06_type_confusion_example_method :
   ending_of (run_impl None eps0 50
      [SExpr (Some 0) (ECall (EMember (EBool true) (nm "abs")) [] None)]) = RtErr TypeMis.
 Proof. vm_compute. reflexivity. Qed.
+
+(* ---------------------------------------------------------------------------------------- *)
+(* 3. Scoping sites: dead for every program that passes wf_scoped for the plan that is run.  *)
+Theorem C06_wf_scoped_never_panics_scoping :
+  forall plan prog, wf_scoped plan prog = true ->
+  forall eps fuel s,
+  ending_of (run_impl plan eps fuel prog) = Panicked s ->
+  s <> PVarMissing /\ s <> PSegVar /\ s <> PAssignMissing /\ s <> PMutVarMissing /\ s <> PFuncMissing.
+Proof. exact wf_scoped_never_panics_scoping. Qed.
+Print Assumptions C06_wf_scoped_never_panics_scoping.
+
+(* 4. Together: a program that passes both checkers never ends in a Panicked ending, for the
+      plan it was checked with, every eps, every fuel.  "_partial": the hypothesis is the two
+      extracted checkers, not "the resolver accepted it" (see the header). *)
+Theorem C06_accepted_never_panics_partial :
+  forall plan prog, wf_static prog = true -> wf_scoped plan prog = true ->
+  forall eps fuel s, ending_of (run_impl plan eps fuel prog) <> Panicked s.
+Proof. exact accepted_never_panics_partial. Qed.
+Print Assumptions C06_accepted_never_panics_partial.
+
+(* ---------- non-vacuity / sharpness of wf_scoped ---------- *)
+(* make x get 1   do f() start return x end   shout(f())  — a capture, called after the make *)
+Definition ex_capture : list stmt :=
+  [ SMake (Some 0) (nm "x") (Some 0) one;
+    SFun (Some 1) (nm "f") [] [SRet (Some 2) (Some (EVar (nm "x") (Some 0)))] (Some 1) 1 0;
+    SExpr (Some 3) (ECall (EVar (nm "shout") None) [ECall (EVar (nm "f") None) [] (Some 1)] None) ].
+Example C06_wf_scoped_satisfiable :
+  wf_static ex_capture = true /\ wf_scoped None ex_capture = true /\
+  run_impl None eps0 50 ex_capture = ([VNum (F64.of_Z 1)], Done).
+Proof. repeat split; vm_compute; reflexivity. Qed.
+
+(* a forward call is fine when nothing is declared in between (mutual recursion style) *)
+Definition ex_forward_ok : list stmt :=
+  [ SMake (Some 0) (nm "x") (Some 0) one;
+    SExpr (Some 1) (ECall (EVar (nm "shout") None) [ECall (EVar (nm "f") None) [] (Some 1)] None);
+    SFun (Some 2) (nm "f") [] [SRet (Some 3) (Some (EVar (nm "x") (Some 0)))] (Some 1) 1 0 ].
+Example C06_wf_scoped_forward_call_ok :
+  wf_scoped None ex_forward_ok = true /\ run_impl None eps0 50 ex_forward_ok = ([VNum (F64.of_Z 1)], Done).
+Proof. split; vm_compute; reflexivity. Qed.
+
+(* KNOWN FINDING C06/hoisted-call-before-captured-make (DESIGN section 7 row 8):
+       shout(f())   make x get 1   do f() start return x end
+   is accepted by src/resolver.rs (lib/props/c06.py shows it on every run), passes wf_static,
+   is rejected by wf_scoped, and panics at the `expect` of eval_expr's Var arm.  So the full
+   statement is REFUTED for the shipped checker; the class is exactly "not wf_scoped". *)
+Definition ex_early_call : list stmt :=
+  [ SExpr (Some 0) (ECall (EVar (nm "shout") None) [ECall (EVar (nm "f") None) [] (Some 1)] None);
+    SMake (Some 1) (nm "x") (Some 0) one;
+    SFun (Some 2) (nm "f") [] [SRet (Some 3) (Some (EVar (nm "x") (Some 0)))] (Some 1) 1 0 ].
+Example C06_refuted_without_wf_scoped :
+  wf_static ex_early_call = true /\ wf_scoped None ex_early_call = false /\
+  ending_of (run_impl None eps0 50 ex_early_call) = Panicked PVarMissing.
+Proof. repeat split; vm_compute; reflexivity. Qed.
+
+(* the plan matters: if the plan removes the `make` (sid 0) that a later use needs, the
+   checker for THAT plan rejects the program, and the run with that plan panics *)
+Definition ex_plan : list stmt :=
+  [ SMake (Some 0) (nm "x") (Some 0) one;
+    SExpr (Some 1) (ECall (EVar (nm "shout") None) [EVar (nm "x") (Some 0)] None) ].
+Example C06_wf_scoped_is_plan_aware :
+  wf_scoped None ex_plan = true /\ wf_scoped (Some ([0], [])) ex_plan = false /\
+  ending_of (run_impl (Some ([0], [])) eps0 50 ex_plan) = Panicked PVarMissing.
+Proof. repeat split; vm_compute; reflexivity. Qed.
